@@ -394,6 +394,13 @@ fn main() {
                 Ok(v) => v,
                 Err(e) => json!({"panic": panic_msg(e)}),
             },
+            "multiline" => match catch_unwind(AssertUnwindSafe(|| {
+                let li = x::parser_line::parse_line(&line);
+                json!({"complete": li.is_complete, "trimmed": x::shell::trim_multiline_prompts(&line)})
+            })) {
+                Ok(v) => v,
+                Err(e) => json!({"panic": panic_msg(e)}),
+            },
             "stages" => stages(&mut sh, &line, false),
             "cheap" => stages(&mut sh, &line, true),
             "calc" => match catch_unwind(AssertUnwindSafe(|| {
